@@ -598,6 +598,14 @@ def decode_table(fn, widths):
     return [rows[b] for b in range(256)]
 
 
+def _only_value_choice(x):
+    """`c ? A : B` over enum constants / literals (write_bool's choice of the control value)"""
+    if x.get("kind") != "ConditionalOperator":
+        return False
+    return all(_lit(y) is not None or (_strip(y).get("kind") == "DeclRefExpr" and _strip(y).get("referencedDecl", {}).get("kind") == "EnumConstantDecl")
+               for y in x["inner"][1:])
+
+
 def _objs(tu, filt, inc):
     import subprocess, tempfile
     with tempfile.TemporaryDirectory() as d:
@@ -668,6 +676,15 @@ def generate(repo, cfg_inc):
     out.append("structure Site where\n  writer : String\n  reserveFn : String\n  base : Nat\n  plusLen : Bool\n  encoder : String\n  values : List Nat\nderiving Repr, DecidableEq\n")
     out.append("def sites : List Site := [\n" + ",\n".join(
         f"  ⟨{_s(a)}, {_s(b)}, {c}, {'true' if d else 'false'}, {_s(e)}, [{', '.join(map(str, f))}]⟩" for a, b, c, d, e, f in sites) + "]\n")
+    # writers that can leave before / without reaching their encode call
+    early = sorted(n for n, fn in wf.items() if any(x.get("kind") in ("ReturnStmt", "GotoStmt") for x in _walk(_body(fn))))
+    out.append("/-- writer functions containing a `return` (any other writer runs its reserve + encode unconditionally) -/")
+    out.append("def writersWithReturn : List String := [" + ", ".join(_s(n) for n in early) + "]\n")
+    cond = sorted({a for a, *_ in sites for fn in [wf[a]] if a != "s_cbor_encoder_write_type_only" and a != "aws_cbor_encoder_write_float"
+                   and any(x.get("kind") in ("IfStmt", "SwitchStmt", "ConditionalOperator", "WhileStmt", "ForStmt") and "aws_fatal_assert" not in json.dumps(x)
+                           and not _only_value_choice(x) for x in _walk(_body(fn)))})
+    out.append("/-- writers (other than write_float and the type-only switch) with a branch that is not a fatal assertion or a choice of the value passed -/")
+    out.append("def writersWithBranch : List String := [" + ", ".join(_s(n) for n in cond) + "]\n")
     # delegation: which writer functions the type-only writers call
     deleg = []
     for name, fn in sorted(wf.items()):
